@@ -5,7 +5,9 @@ pub mod c06;
 pub mod c07;
 pub mod c09;
 pub mod c10;
+pub mod c11;
 pub mod c13;
+pub mod c14;
 pub mod c15;
 pub mod c19;
 pub mod c04;
@@ -31,6 +33,8 @@ pub fn run(id: &str, tier: &str, seed: u64) -> Option<i32> {
         "C10" => go!("C10", "exploration", c10),
         "C13" => go!("C13", "fault_enumeration", c13),
         "C15" => go!("C15", "exploration", c15),
+        "C14" => go!("C14", "fault_enumeration", c14),
+        "C11" => go!("C11", "exploration", c11),
         "C04" => go!("C04", "exploration", c04),
         "C05" => go!("C05", "exploration", c05),
         "C12" => go!("C12", "exploration", c12),
@@ -49,6 +53,8 @@ pub fn replay(id: &str, case: &serde_json::Value) -> Option<CheckResult> {
         "C10" => Some(c10::replay(case)),
         "C13" => Some(c13::replay(case)),
         "C15" => Some(c15::replay(case)),
+        "C14" => Some(c14::replay(case)),
+        "C11" => Some(c11::replay(case)),
         "C04" => Some(c04::replay(case)),
         "C05" => Some(c05::replay(case)),
         "C12" => Some(c12::replay(case)),
